@@ -84,8 +84,26 @@ def oracle_c09(tier, seed):
                 for b in species[i + 1:]:
                     if a == b:
                         V(f"two-slots-one-species: {a.name} / {b.name}")
+            # element slots: one IDX_ELEM_ macro per neutral atomic species named in the description (grain "atoms" included), values a
+            # bijection onto 0..NELEMENTS-1, NELEMENTS their number, the Python constants and the project summary the same
+            edefs = re.findall(r"^#define (IDX_ELEM_\S+)\s+(\S+)\s*$", text, flags=re.M)
+            SYMBOLS = {"H", "D", "He", "Li", "C", "N", "O", "F", "Ne", "Na", "Mg", "Al", "Si", "P", "S", "Cl", "Ar", "K", "Ca", "Ti", "Fe", "Ni", "GRAIN", "GRAIN0"}
+            atoms_named = {x for x in expected_names if x in SYMBOLS}
+            evals = [d[1] for d in edefs]
+            if sorted(evals, key=lambda v: (len(v), v)) != [str(i) for i in range(len(edefs))] or len({d[0] for d in edefs}) != len(edefs):
+                V(f"element-slots-not-a-bijection: {edefs}")
+            if mac.get("NELEMENTS") != len(edefs):
+                V(f"NELEMENTS: {mac.get('NELEMENTS')} != {len(edefs)} element macros")
+            if not net._known_elements and len(edefs) != len(atoms_named):
+                V(f"element-slots: {len(edefs)} element macros {[d[0] for d in edefs]} for the {len(atoms_named)} atomic species {sorted(atoms_named)} of the description")
+            for nm, _v in edefs:
+                if not IDENT.match(nm):
+                    V(f"illegal-identifier: `#define {nm}` is not a C identifier")
             # python constants module
             py = files.get("python/pynaunet_model/constant_indexes.py", "")
+            pye = re.findall(r"^(IDX_ELEM_\w*\S*) = (\d+)\s*$", py, flags=re.M)
+            if [(a, b) for a, b in pye] != [(a, b) for a, b in edefs]:
+                V(f"python-element-constants-disagree: {pye[:4]} vs {edefs[:4]}")
             pyd = re.findall(r"^(IDX_(?!ELEM_)\w*\S*) = (\d+)\s*$", py, flags=re.M)
             if [(a, b) for a, b in pyd] != [(a, b) for a, b in defs]:
                 V(f"python-constants-disagree: {pyd[:4]} vs {defs[:4]}")
@@ -94,7 +112,7 @@ def oracle_c09(tier, seed):
                 cfg = tomlkit.loads(NetworkConfiguration("p", net).content)
                 summ = cfg["summary"]
                 if list(summ["list_of_species"]) != [s.name for s in species] or list(summ["list_of_species_alias"]) != [s.alias for s in species] \
-                        or int(summ["num_of_species"]) != n or int(summ["num_of_elements"]) != len(net.elements):
+                        or int(summ["num_of_species"]) != n or int(summ["num_of_elements"]) != len(net.elements) or int(summ["num_of_elements"]) != len(edefs):
                     V("summary-disagrees: configuration summary lists differ from the generated macros")
                 if ["IDX_" + a for a in summ["list_of_species_alias"]] != names:
                     V("summary-alias-order: alias list order differs from macro order")
@@ -458,6 +476,32 @@ def oracle_c08(tier, seed):
                         break
             except Exception as e:
                 viol.append({"property": "C08", "config": cname, "name": "", "what": f"patch-history-raises: {type(e).__name__}: {e}", "signature": f"C08:{cname}:patch-history-raises"})
+        # history: the renaming table is replaced the way `naunet render` does it (plain assignment to the class attribute, no setter)
+        # between two parses of the same names; the second parse must follow the table then in force, and the first one again afterwards
+        if elements is not None and "HE" in symbols:
+            saved_repl = Species._replacement
+            for newrepl in ({"HE": "He", "MG": "Mg"} if not repl else {}, saved_repl):
+                Species._replacement = dict(newrepl)
+                for name, want, charge, surface in recheck[:120]:
+                    body = [w for w in want]
+                    cases += 1
+                    try:
+                        sp = Species(name, **kw)
+                    except Exception as e:
+                        viol.append({"property": "C08", "config": cname, "name": name, "what": f"renaming-table-replaced: rejected-valid-name: {name}: {type(e).__name__}: {e}",
+                                     "signature": f"C08:{cname}:renaming-table-replaced"})
+                        break
+                    inv = {v: k for k, v in repl.items()}
+                    want2 = {}
+                    for k2, v2 in want.items():
+                        raw = inv.get(k2, k2)
+                        want2[newrepl.get(raw, raw)] = want2.get(newrepl.get(raw, raw), 0) + v2
+                    got = {k: v for k, v in sp.element_count.items()}
+                    if got != want2:
+                        viol.append({"property": "C08", "config": cname, "name": name, "what": f"renaming-table-replaced: {name}: parsed {got} under the table {newrepl}, composed from {want2}",
+                                     "signature": f"C08:{cname}:renaming-table-replaced"})
+                        break
+            Species._replacement = saved_repl
         # names with a foreign character must be rejected
         for bad in ["H2Q", "C?O", "xH2", "H2O!", "C.O", "H 2", "H2 O", "C1_2", "C+2H", "H2\tO", "C 12", "O_2", "2H2", "13CO", "13", "18OH", "1H", "0C", "7#CO"] + (["Mg", "oH2", "pH3+", "HgO", "H2M", "CXO"] if (elements is not None and not pseudo) else []):
             cases += 1
